@@ -57,8 +57,8 @@ def fingerprint(roots, extra=None, skip_attrs=()):
             out.append('@%d' % n)
             return
         t = type(o)
-        if isinstance(o, Watcher):
-            out.append('W%d(' % n)
+        if isinstance(o, tuple) and hasattr(o, '_fields'):
+            out.append('%s%d(' % (t.__name__, n))
             for f in o._fields:
                 out.append(f + '=')
                 w(getattr(o, f), depth + 1)
